@@ -123,3 +123,9 @@ def predicates(c, ri, rm):
         if a1 == a2 and any(abs(x - p) > tol for x, p in zip(a, a1)):
             out.append("shared base rate was not kept")
     return out
+
+
+def gen_q(rng, tier):
+    """exact-rational cases: see qgen.py"""
+    from . import qgen
+    return qgen.fusion(rng, tier)
